@@ -417,7 +417,7 @@ func cmdCheck(args []string) int {
 			opts.Mirror = ""
 		}
 	}
-	if n := 30/len(jobs) + 1; n > opts.WitnessPerJob {
+	if n := 64/len(jobs) + 1; n > opts.WitnessPerJob {
 		opts.WitnessPerJob = n
 	}
 	if tier == "thorough" {
@@ -599,7 +599,7 @@ func cmdCheck(args []string) int {
 	// cover points and observations must agree.
 	nValidated, nMismatch := 0, 0
 	{
-		maxW := 24
+		maxW := 48
 		if tier == "thorough" {
 			maxW = 120
 		}
